@@ -164,9 +164,12 @@ def run(ctx):
     oldmod = old_module(ctx, bins)
     compared += oldmod
     fixes = fix_forwarding(ctx, w)
+    # every pass of the analysis front-end delivers the diagnostics of its own build variant (AnalyzerWork.tla)
+    variants = ac.variant_runs(ctx, runs=2)
     st, tr = vlib.tlc_states_total(ctx)
     cov = {
-        "states": st, "transitions": tr, "traces_validated_against_impl": compared,
+        "build_variants": variants,
+        "states": st, "transitions": tr, "traces_validated_against_impl": compared + variants["runs"],
         "configs": [c[0] for c in cfgs], "frontend_comparisons": compared, "diagnostic_lines_cli": total,
         "offers": {k: len(v) for k, v in offers.items()}, "registry": len(full), "fix_forwarding": fixes,
         "design": design, "exhaustive": False, "samples": samples or ["(none)"],
